@@ -4,7 +4,7 @@ use bstr::BString;
 use noodles_sam::header::record::value::{Map, map::ReferenceSequence};
 use tokio::io::{self, AsyncRead, AsyncReadExt};
 
-use crate::io::reader::bytes_with_nul_to_bstring;
+use crate::{r#async::io::reader::read_exact_to_vec, io::reader::bytes_with_nul_to_bstring};
 
 pub(super) async fn read_reference_sequence<R>(
     reader: &mut R,
@@ -28,8 +28,8 @@ where
         usize::try_from(n).map_err(|e| io::Error::new(io::ErrorKind::InvalidData, e))
     })?;
 
-    let mut c_name = vec![0; l_name];
-    reader.read_exact(&mut c_name).await?;
+    let mut c_name = Vec::new();
+    read_exact_to_vec(reader, &mut c_name, l_name).await?;
 
     bytes_with_nul_to_bstring(&c_name)
 }
